@@ -134,6 +134,7 @@ class Session(object):
     def __init__(self, prop, repo=None):
         self.prop = prop
         self.interp = Interp(repo)
+        self.interp.executed = {}       # 'module.qualname' -> sha256 of what ran
         self.stats = Stats()
         self.obligations = []
         self.functions = {}     # name -> sha256
@@ -161,6 +162,18 @@ class Session(object):
         self.functions['%s.%s' % (module, qualname)] = \
             self.interp.source_hash(fv)
         return fv
+
+    def note_function(self, module, qualname):
+        """list a helper in the evidence (functions_under_contract) when it
+        exists under that name; helpers are interpreted in place, so renaming,
+        moving or inlining one does not invalidate any contract (every repo
+        function the interpreter actually executes is recorded as well)"""
+        try:
+            return self.resolve(module, qualname)
+        except ContractOutOfDate:
+            self.notes.append('helper %s.%s not found under that name '
+                              '(interpreted where it is now)' % (module, qualname))
+            return None
 
     def run_paths(self, label, body, active=(), max_paths=20000):
         """explore all paths of body(V); body creates obligations itself."""
